@@ -3,7 +3,7 @@
 // OptimizationPasses / Partition / Types, compiled unchanged against the sequential
 // TBB shim in tbb_shim/).
 //
-//   driver <jobs.json> <out.json> [seconds per job, default 20]
+//   driver <jobs.json> <out.json> [CPU seconds per job, default 20]
 //
 // jobs.json: {"jobs": [JOB, ...]}   out.json: {"results": [RESULT, ...]}
 //
@@ -829,6 +829,26 @@ static void childLoop(const std::vector<J>& jobs, size_t from, int fd) {
   _exit(0);
 }
 
+// CPU seconds (user + system) consumed so far by process `pid`; -1 when unknown.
+static double cpuSecondsOf(pid_t pid) {
+  std::ifstream st("/proc/" + std::to_string(pid) + "/stat");
+  std::string line;
+  if (!std::getline(st, line)) return -1;
+  auto close = line.rfind(')');  // the command name may contain spaces
+  if (close == std::string::npos) return -1;
+  std::istringstream rest(line.substr(close + 2));
+  std::string field;
+  unsigned long long utime = 0, stime = 0;
+  for (int k = 3; k <= 15 && (rest >> field); k++) {  // fields 14 and 15 of the stat line
+    if (k == 14) utime = std::stoull(field);
+    if (k == 15) stime = std::stoull(field);
+  }
+  long ticks = sysconf(_SC_CLK_TCK);
+  return static_cast<double>(utime + stime) / static_cast<double>(ticks > 0 ? ticks : 100);
+}
+
+// The limit per job is on the CPU time of the child (an endless loop burns CPU, a busy
+// machine does not), with a generous wall-clock limit as a backstop.
 static std::vector<std::string> runBatchIsolated(const std::vector<J>& jobs, int timeoutSeconds) {
   std::vector<std::string> results;
   while (results.size() < jobs.size()) {
@@ -843,7 +863,9 @@ static std::vector<std::string> runBatchIsolated(const std::vector<J>& jobs, int
     close(fds[1]);
     std::string buffer;
     bool timedOut = false;
-    auto deadline = std::chrono::steady_clock::now() + std::chrono::seconds(timeoutSeconds);
+    const int wallFactor = 30;
+    auto deadline = std::chrono::steady_clock::now() + std::chrono::seconds(timeoutSeconds * wallFactor);
+    double cpuAtJobStart = 0;
     char chunk[65536];
     while (results.size() < jobs.size()) {
       // complete frames in the buffer?
@@ -856,11 +878,14 @@ static std::vector<std::string> runBatchIsolated(const std::vector<J>& jobs, int
         progressed = true;
       }
       if (progressed) {
-        deadline = std::chrono::steady_clock::now() + std::chrono::seconds(timeoutSeconds);
+        deadline = std::chrono::steady_clock::now() + std::chrono::seconds(timeoutSeconds * wallFactor);
+        double c = cpuSecondsOf(pid);
+        if (c >= 0) cpuAtJobStart = c;
         continue;
       }
       auto left = std::chrono::duration_cast<std::chrono::milliseconds>(deadline - std::chrono::steady_clock::now()).count();
-      if (left <= 0) {
+      double cpuNow = cpuSecondsOf(pid);
+      if (left <= 0 || (cpuNow >= 0 && cpuNow - cpuAtJobStart > timeoutSeconds)) {
         timedOut = true;
         break;
       }
@@ -880,8 +905,8 @@ static std::vector<std::string> runBatchIsolated(const std::vector<J>& jobs, int
     if (results.size() < jobs.size()) {
       const J& job = jobs[results.size()];
       if (timedOut)
-        results.push_back(failureText(job, "timeout", "no result within " + std::to_string(timeoutSeconds) +
-                                                          " s (endless loop in the library?)"));
+        results.push_back(failureText(job, "timeout", "no result after " + std::to_string(timeoutSeconds) +
+                                                          " s of CPU time (endless loop in the library?)"));
       else if (WIFSIGNALED(status) && WTERMSIG(status) != SIGKILL)
         results.push_back(failureText(job, "crash", "killed by signal " + std::to_string(WTERMSIG(status))));
       else
